@@ -186,7 +186,8 @@ class Walker:
         out = 'ConFields.nil'
         for sc in reversed(subcons):
             embed = bool(sc.conflags & FLAG_EMBED)
-            name = 'none' if sc.name is None else '(some %s)' % lean_str(sc.name)
+            # the name of an embedded sub-construct is never used by Struct._parse
+            name = 'none' if (sc.name is None or embed) else '(some %s)' % lean_str(sc.name)
             out = '(ConFields.cons %s %s %s %s)' % (name, 'true' if embed else 'false', self.con(sc), out)
         return out
 
